@@ -9,6 +9,7 @@ import (
 	"os"
 	"path/filepath"
 	"reflect"
+	"runtime"
 	"runtime/pprof"
 	"sort"
 	"strings"
@@ -605,9 +606,59 @@ func runSpec(ls *liveSession, sp Spec, args [2]bigslice.Slice, scan bool, timeou
 				out.Stalled = true
 			}
 		}
+		if ls.IP == nil && processParked() {
+			// no RPC layer to watch (local executor): the run is stalled if every goroutine that is
+			// inside bigslice code is blocked on a channel, lock or condition, twice, half a second
+			// apart, with the same stacks - nothing is left that could make progress
+			out.Stalled = true
+			out.Quiet = "every goroutine inside bigslice code is parked (two identical samples)"
+		}
 		dumpGoroutines("timeout-" + sp.Run)
 	}
 	return
+}
+
+// processParked samples all goroutine stacks twice and tells whether, both times, there are
+// goroutines inside bigslice code, all of them are blocked (none running, runnable, sleeping, in a
+// system call or waiting for I/O), and their stacks are the same.
+func processParked() bool {
+	sample := func() (string, bool) {
+		buf := make([]byte, 8<<20)
+		n := runtime.Stack(buf, true)
+		var keep []string
+		for _, g := range strings.Split(string(buf[:n]), "\n\n") {
+			if !strings.Contains(g, "github.com/grailbio/bigslice") || strings.Contains(g, "props.processParked") {
+				continue
+			}
+			head := g
+			if i := strings.Index(g, "\n"); i > 0 {
+				head = g[:i]
+			}
+			blocked := false
+			for _, st := range []string{"[chan receive", "[chan send", "[select", "[semacquire", "[sync.Cond.Wait", "[sync.Mutex.Lock", "[sync.RWMutex", "[sync.WaitGroup.Wait"} {
+				if strings.Contains(head, st) {
+					blocked = true
+				}
+			}
+			if !blocked {
+				return "", false
+			}
+			// drop the "N minutes" annotation of the state, keep id, state and frames
+			if i := strings.Index(head, ","); i > 0 {
+				g = head[:i] + g[len(head):]
+			}
+			keep = append(keep, g)
+		}
+		sort.Strings(keep)
+		return strings.Join(keep, "\n\n"), len(keep) > 0
+	}
+	a, ok := sample()
+	if !ok {
+		return false
+	}
+	time.Sleep(500 * time.Millisecond)
+	b, ok := sample()
+	return ok && a == b
 }
 
 // dumpGoroutines writes a goroutine dump to the check's work directory (kept on inconclusive runs).
